@@ -148,6 +148,15 @@ func famEncodings(g *Gen, tier string, shard, nshards int) {
 		// half of the histories: partial map forests learn the leaves to delete only through
 		// Verify(remember=true) of the block's (non-canonical) encoding
 		s.ingestMode = h%2 == 1
+		// one history in five lives in a forest of many trees (9 or more roots, rows >= 9):
+		// the alternative encodings (permuted, junk suffix, AddProof, GetProofSubset) of
+		// deletions at the right edge, spread over the forest, and of a whole big tree but one leaf
+		manyTrees := h%5 == 2
+		if manyTrees {
+			s.ingestMode = (h/5)%2 == 1
+			famEncodingsMany(s, shard*nHist/5+h/5, tier)
+			continue
+		}
 		s.applyBlock(nil, 2+g.Intn(maxAdds*2))
 		s.obsRoots()
 		nBlocks := 2 + g.Intn(maxBlocks)
@@ -170,6 +179,36 @@ func famEncodings(g *Gen, tier string, shard, nshards int) {
 	}
 }
 
+// famEncodingsMany: one short history in a many-tree forest, every block in a non-canonical
+// accepted encoding; k selects the leaf count.
+func famEncodingsMany(s *Sim, k int, tier string) {
+	g := s.g
+	n := manyTreeCount(k)
+	if tier == "thorough" && k%8 == 7 {
+		n = hugeTreeCount(k / 8)
+	}
+	s.growTo(n)
+	s.obsRoots()
+	nBlocks := 3 + g.Intn(3)
+	for b := 0; b < nBlocks; b++ {
+		style := manyTreeStyleHeavy(g)
+		if b == 0 && k%3 == 0 {
+			style = 2 // a leaf climbs many rows first, the rest of the history runs beside it
+		}
+		s.applyBlockEnc(manyTreeDeletions(g, s.alive, style), manyTreeAdds(g), 1+g.Intn(5))
+		s.obsRoots()
+		if b == nBlocks-1 && n <= 2100 && !s.ingestMode {
+			// (in ingest mode the partial forests do not cache every leaf: their look-ups
+			// are not comparable with the specification and C05 judges the roots only)
+			s.observeAllSampled()
+		}
+		if len(s.hist) > 1 && g.Intn(3) == 0 {
+			s.undoLast()
+			s.obsRoots()
+		}
+	}
+}
+
 // famUndoRedo: deep undo and redo on another branch (C06): after undoing k blocks (k up to the
 // whole history) the roots, every position, every hash and proofs are observed, then
 // different blocks are applied from there.
@@ -180,6 +219,11 @@ func famUndoRedo(g *Gen, tier string, shard, nshards int) {
 	}
 	for h := 0; h < nHist; h++ {
 		s := newSim(g, pickRows(g))
+		// one history in five lives in a forest of many trees (9 or more roots, rows >= 9)
+		if h%5 == 3 {
+			famUndoRedoMany(s, shard*nHist/5+h/5, tier)
+			continue
+		}
 		nBlocks := 2 + g.Intn(maxBlocks)
 		for b := 0; b < nBlocks; b++ {
 			mode := g.Intn(8)
@@ -220,5 +264,54 @@ func famUndoRedo(g *Gen, tier string, shard, nshards int) {
 			}
 			s.observeAll()
 		}
+	}
+}
+
+// famUndoRedoMany: deep undo and redo in a many-tree forest.  A first block of 509..2046
+// leaves (thorough: also 4095..16382), then short blocks whose deletions sit at the right
+// edge, are spread over the forest, or take all but one leaf of a big tree (the survivor
+// climbs many rows); undo of several blocks (sometimes down to the empty accumulator), full
+// observation of the restored state, other blocks redone from there.
+func famUndoRedoMany(s *Sim, k int, tier string) {
+	g := s.g
+	n := manyTreeCount(k)
+	if tier == "thorough" && k%8 == 7 {
+		n = hugeTreeCount(k / 8)
+	}
+	s.growTo(n)
+	s.obsRoots()
+	nBlocks := 2 + g.Intn(4)
+	for b := 0; b < nBlocks; b++ {
+		style := manyTreeStyleHeavy(g)
+		if b == 0 && k%3 == 1 {
+			style = 2
+		}
+		s.applyBlock(manyTreeDeletions(g, s.alive, style), manyTreeAdds(g))
+		s.obsRoots()
+	}
+	for round := 0; round < 2 && len(s.hist) > 0; round++ {
+		kk := 1 + g.Intn(len(s.hist))
+		if round == 0 && k%4 == 0 {
+			kk = len(s.hist) // back to the empty accumulator
+		}
+		for i := 0; i < kk; i++ {
+			s.undoLast()
+			s.obsRoots()
+		}
+		if n <= 2100 {
+			s.observeAllSampled()
+		}
+		nRedo := 1 + g.Intn(3)
+		for b := 0; b < nRedo; b++ {
+			nAdds := manyTreeAdds(g)
+			if len(s.slots) == 0 {
+				nAdds = manyTreeCount(k + 1 + round)
+			}
+			s.applyBlock(manyTreeDeletions(g, s.alive, manyTreeStyleHeavy(g)), nAdds)
+			s.obsRoots()
+		}
+	}
+	if n <= 2100 {
+		s.observeAllSampled()
 	}
 }
